@@ -126,6 +126,19 @@ def run(ctx):
     res = lib.run_model([("spec_x25_reg", a) for a in appended])
     for m, s, rr in zip(msgs, spec, res):
         check_msg(ctx, m, s, rr)
+    # one calculator object used for many messages, both byte orders interleaved and repeated (a value must not depend on
+    # what the object computed before)
+    shared = crc.CRCCCITT()
+    order = [(i, lf) for i in range(len(msgs)) for lf in (True, False, False, True)]
+    order += [(i, lf) for i in reversed(range(0, len(msgs), 3)) for lf in (False, True)]
+    for i, lf in order:
+        o = guarded(lambda: shared.calculate_for(msgs[i], lsb_first=lf))
+        got = bytes(o.value) if o.ok and isinstance(o.value, (bytes, bytearray)) else repr(o)
+        want = spec[i][::-1] if lf else spec[i]
+        ctx.tried("fcs_shared_object", key=(i, lf))
+        if got != want:
+            ctx.fail("fcs_depends_on_earlier_calls", {"msg": msgs[i].hex(), "lsb_first": lf, "shared_object": True}, want.hex(), got.hex() if isinstance(got, bytes) else got)
+            break
     ctx.sample({"kind": "search", "msg": msgs[9].hex()[:80], "x25_fcs": spec[9].hex()})
 
 
@@ -137,6 +150,14 @@ def replay(ctx, rp):
     app = msg + (bytes(o.value) if o.ok else b"")
     res = lib.run_model([("spec_x25_reg", app)])[0]
     check_msg(ctx, msg, spec, res)
+    if rp["case"].get("shared_object"):
+        shared = crc.CRCCCITT()
+        for lf in (True, False, False, True):
+            o = guarded(lambda: shared.calculate_for(msg, lsb_first=lf))
+            got = bytes(o.value) if o.ok else None
+            if got != (spec[::-1] if lf else spec):
+                print("same object, lsb_first =", lf, ":", got.hex() if got else got, "expected", (spec[::-1] if lf else spec).hex())
+                return True
     return bool(ctx.failures)
 
 
